@@ -44,5 +44,8 @@ def run(ctx):
     ctx.product_run('main', 'checks.c02:run_case', main, chunksize=1)
     if second:
         ctx.product_run('second', 'checks.c02:run_case', second, chunksize=1)
+    units = pp.units_product(ctx.tier)
+    ctx.bounds['units'] = len(units)
+    ctx.product_run('units', 'checks.c02:run_case', units, chunksize=1)
     ctx.product_run('shape', 'checks.c02:run_case', shape, chunksize=1)
     ctx.product_run('default-dtscale', 'checks.c02:run_case', dflt, chunksize=1)
